@@ -406,9 +406,28 @@ def r5_failure_classes(ctx):
 
 
 def _sniffer(F, body, tr):
-    """(window constant, predicate callee, start bytes) of a first-non-whitespace sniff in `body` (or None)"""
-    takes = [c for c in body.calls_to(r"^std::iter::Iterator::take$")]
-    finds = [c for c in body.calls_to(r"^std::iter::Iterator::find$")]
+    """(window constant, predicate callee, start bytes) of a first-non-whitespace sniff in `body` (or None). The
+    take(..).find(..) chain may sit in the body itself or in a crate-local helper it calls (one level)."""
+    def scan(b):
+        takes = [c for c in b.calls_to(r"^std::iter::Iterator::take$")]
+        finds = [c for c in b.calls_to(r"^std::iter::Iterator::find$")]
+        return takes, finds
+
+    takes, finds = scan(body)
+    src = body
+    results = []  # locals of `body` holding the find result
+    if takes and finds:
+        results = [f.dest["l"] for f in finds]
+    else:
+        for c in body.calls:
+            tgt = F.bodies.get(c.name() or "")
+            if tgt is None or tgt.crate != body.crate or tgt.path == body.path:
+                continue
+            t2, f2 = scan(tgt)
+            if t2 and f2 and c.dest is not None:
+                takes, finds, src = t2, f2, tgt
+                results = [c.dest["l"]]
+                break
     if not takes or not finds:
         return None
     win = None
@@ -418,7 +437,7 @@ def _sniffer(F, body, tr):
             win = int(k["int"])
     pred = set()
     for f in finds:
-        for lf in tr.origins(body, f.args[1]):
+        for lf in tr.origins(src, f.args[1]):
             if lf.kind == "closure":
                 cb = F.bodies.get(lf.detail["def"])
                 if cb is not None:
@@ -427,12 +446,13 @@ def _sniffer(F, body, tr):
                     neg = any(st["s"] == "assign" and st["rv"]["k"] == "un" and st["rv"]["op"] == "Not" for blk in cb.blocks for st in blk["st"])
                     pred.add("negated" if neg else "plain")
     starts = set()
-    for f in finds:
+    for r in results:
+        holders = follow_value(body, r)
         for bi, blk in enumerate(body.blocks):
             t = blk["term"]
             if t and t["t"] == "switch":
                 p = op_place(t["discr"])
-                if p is not None and p["l"] in follow_value(body, f.dest["l"]) and any(isinstance(e, dict) and "f" in e for e in p.get("p", [])):
+                if p is not None and p["l"] in holders and any(isinstance(e, dict) and "f" in e for e in p.get("p", [])):
                     for v, _ in t["arms"]:
                         starts.add(int(v))
     return (win, tuple(sorted(pred)), tuple(sorted(starts)))
